@@ -24,6 +24,7 @@ func init() {
 			"mutations: every single-symbol insertion at every character boundary of every base pattern (deduplicated); non-trivial when the model does not classify the result as portable. " +
 			"protocol: BFS to fixpoint over (lastIndex value, writable) states of one RegExp object per (pattern, flags); every transition replayed on a fresh object; non-trivial when the operation matches or changes state. " +
 			"reentrant: finite product of callback scenarios (user code inside exec/test/match/replace/search/split that logs lastIndex/global, assigns lastIndex or calls exec/test/match re-entrantly) x initial lastIndex; non-trivial when a callback ran during matching or lastIndex changed. " +
+			"literals: every history of <= 2 operations over two RegExp objects obtained from the same literal text (same site twice, loop body, two sites, literal + new RegExp(A)), plus a third object checked for freshness. " +
 			"subst/flags: finite tables.",
 		Families: []engine.Family{
 			{Name: "patterns", Run: runPatterns},
@@ -31,6 +32,7 @@ func init() {
 			{Name: "mutations", Run: runMutations},
 			{Name: "protocol", Run: runProtocol},
 			{Name: "reentrant", Run: runReentrant},
+			{Name: "literals", Run: runLiterals},
 			{Name: "subst", Run: runSubst},
 			{Name: "flags", Run: runFlags, Solo: true},
 		},
